@@ -655,7 +655,8 @@ Proof.
     + destruct (cursor_seek _ pos sf); reflexivity.
     + destruct (cursor_seek _ pos sf) as [n|]; [destruct (n <=? i64_max)%Z|]; reflexivity.
     + destruct (cursor_seek _ pos sf) as [n|]; [destruct (n <=? i64_max)%Z|]; reflexivity.
-  - destruct (put st h x data) as [st'|] eqn:E; [|reflexivity]. cbn. eapply put_fault; eauto.
+  - destruct (write_too_large x data); [reflexivity|].
+    destruct (put st h x data) as [st'|] eqn:E; [|reflexivity]. cbn. eapply put_fault; eauto.
   - destruct x; try reflexivity. cbn. unfold mem_publish. destruct (st_bases st !! base) as [[| |]|]; reflexivity.
   - destruct x; try reflexivity. cbn. unfold mem_publish. destruct (st_bases st !! base) as [[| |]|]; reflexivity.
   - destruct (drain st x) as [[out x']|]; [|reflexivity].
@@ -746,7 +747,8 @@ Proof.
     + destruct (cursor_seek _ pos sf); reflexivity.
     + destruct (cursor_seek _ pos sf) as [n|]; [destruct (n <=? i64_max)%Z|]; reflexivity.
     + destruct (cursor_seek _ pos sf) as [n|]; [destruct (n <=? i64_max)%Z|]; reflexivity.
-  - destruct (put st h x data) as [st'|] eqn:E; [|reflexivity]. cbn. eapply put_io; eauto.
+  - destruct (write_too_large x data); [reflexivity|].
+    destruct (put st h x data) as [st'|] eqn:E; [|reflexivity]. cbn. eapply put_io; eauto.
   - destruct x; try reflexivity. cbn. unfold mem_publish. destruct (st_bases st !! base) as [[| |]|]; reflexivity.
   - destruct x; try reflexivity. cbn. unfold mem_publish. destruct (st_bases st !! base) as [[| |]|]; reflexivity.
   - destruct (drain st x) as [[out x']|]; [|reflexivity].
